@@ -69,6 +69,13 @@ CHECKS = {
         "Trusted: the regex crate as matching oracle, the naive lexer, the abstract-spec renderer. set_rule_ids order as used by all callers (the doc comment's order is stale).",
         "DESIGN.md section 5, C09",
     ),
+    "C10": (
+        "property-based testing: print-then-parse round trip of abstract grammars over varied renderings (layout, comments, quoting, declaration order, split rules, yacc kinds, entry points); well-formedness of every accessor; spans against the renderer's layout map",
+        "exploration",
+        "Every generated rendering must parse to exactly the abstract grammar (rules in order of first definition, productions in source order, symbols, %prec, precedence levels, %epp, %avoid_insert, %expect, actions, action types, added start rule / Eco implicit rule, one unnamed end-of-input token), with dense numbering, in-range indices, non-panicking accessors and spans that slice the source to the defining text.",
+        "Trusted: the renderer and its layout map. Token numbering only required to be a bijection; prod_span end tolerated up to the action brace; action_span only checked to lie between the braces.",
+        "DESIGN.md section 5, C10",
+    ),
     "C11": (
         "property-based testing: print-then-parse round trip of abstract lexer specifications over varied renderings and flag placements; behavioural regex comparison; span checks against the renderer's layout map; mutated invalid specifications",
         "exploration",
